@@ -1,10 +1,14 @@
 /- DriverExt.lean — session state and dispatch (grows with the model). -/
 import GV.Driver
 import GV.SpecText
+import GV.Model.Validate
+import GV.Model.Alias
+import GV.Spec.Validity
 namespace GV
 
 structure Session where
-  dummy : Nat := 0
+  outRes : OutResolver := {}
+  inRes : InResolver := {}
 
 def Session.new : Session := {}
 
@@ -37,6 +41,110 @@ def cmdSpecCanon (head payload : String) : String :=
      | none => "res=none")
   | _, _, _ => "res=bad-request"
 
+def vresText : VRes → String
+  | .ok _ => "res=ok"
+  | .error .panicNoSettings => "res=panic:no-settings"
+  | .error e => s!"res=err:{e.name}"
+
+def settingsOf (kv : Kv) : Option Settings := do
+  let mq ← kv.numD "mq" 2
+  let nsei ← kv.numD "nsei" 0
+  let rm ← kv.numD "rm" 65535
+  let mps ← kv.numD "mps" maxVli
+  let tam ← kv.numD "tam" 0
+  let ska ← kv.numD "ska" 0
+  let ra ← kv.bool "ra"
+  let wsa ← kv.bool "wsa"
+  let sia ← kv.bool "sia"
+  let ssa ← kv.bool "ssa"
+  let rj ← kv.bool "rejoined"
+  let cid ← kv.bytes "ncid"
+  pure { maximumQos := mq, sessionExpiry := nsei, receiveMaximum := rm, maximumPacketSize := mps,
+         topicAliasMaximum := tam, serverKeepAlive := ska, retainAvailable := ra.getD true,
+         wildcardSubsAvailable := wsa.getD true, subIdsAvailable := sia.getD true,
+         sharedSubsAvailable := ssa.getD true, rejoinedSession := rj.getD false, clientId := cid.getD [] }
+
+def cmdValidateOut (payload : String) : String :=
+  match parsePacket payload with
+  | some p => vresText (validateOutbound p)
+  | none => "res=bad-request"
+
+def cmdValidateOutInt (head payload : String) : String :=
+  let (_, kv) := splitKv head
+  match parsePacket payload, settingsOf kv, kv.num "csei", resolutionOf kv with
+  | some p, some s, some csei, some r =>
+    let res : Option Resolution := if (kv.get "skip").isSome || (kv.get "alias").isSome then some r else none
+    vresText (validateOutboundInternal p (some s) (csei.getD 0) res)
+  | _, _, _, _ => "res=bad-request"
+
+def cmdValidateIn (payload : String) : String :=
+  match parsePacket payload with
+  | some p => vresText (validateInboundInternal p)
+  | none => "res=bad-request"
+
+def limitsOf (kv : Kv) : Option Spec.Limits := do
+  let mq ← kv.numD "mq" 2
+  let mps ← kv.numD "mps" maxVli
+  let ra ← kv.bool "ra"
+  let wsa ← kv.bool "wsa"
+  let sia ← kv.bool "sia"
+  let ssa ← kv.bool "ssa"
+  pure { maximumQos := mq, maximumPacketSize := mps, retainAvailable := ra.getD true,
+         wildcardAvailable := wsa.getD true, subIdAvailable := sia.getD true, sharedAvailable := ssa.getD true }
+
+/-- `spec.valid <limits> | <packet>`: static and dynamic validity per the standard -/
+def cmdSpecValid (head payload : String) : String :=
+  let (_, kv) := splitKv head
+  match parsePacket payload, limitsOf kv with
+  | some p, some l =>
+    let (st, dy) : Bool × Bool := match p with
+      | .publish x => (Spec.publishStaticOk x, Spec.publishDynamicOk l x)
+      | .subscribe x => (Spec.subscribeStaticOk x, Spec.subscribeDynamicOk l x)
+      | .unsubscribe x => (Spec.unsubscribeStaticOk x, Spec.unsubscribeDynamicOk l x)
+      | .disconnect x => (Spec.disconnectStaticOk x, true)
+      | .connect x => (Spec.connectStaticOk x, true)
+      | _ => (true, true)
+    s!"res=ok static={b01 st} dynamic={b01 dy}"
+  | _, _ => "res=bad-request"
+
+def kindOf (kv : Kv) : Option ResolverKind :=
+  match kv.get "kind", kv.numD "max" with
+  | some "null", _ => some .null
+  | some "manual", _ => some .manual
+  | some "lru", some m => some (.lru m)
+  | _, _ => none
+
+def cmdAlias (st : Session) (verb head : String) : Session × String :=
+  let (_, kv) := splitKv head
+  match verb with
+  | "alias.out.new" =>
+    (match kindOf kv with
+     | some k => ({ st with outRes := OutResolver.new k }, "res=ok")
+     | none => (st, "res=bad-request"))
+  | "alias.out.reset" =>
+    (match kv.numD "max" with
+     | some m => ({ st with outRes := st.outRes.reset m }, "res=ok")
+     | none => (st, "res=bad-request"))
+  | "alias.out.resolve" =>
+    (match kv.num "alias", kv.bytes "topic" with
+     | some a, some t =>
+       let (r', res) := st.outRes.resolve a (t.getD [])
+       ({ st with outRes := r' }, s!"res=ok skip={b01 res.skipTopic}" ++ putNum "alias" res.alias)
+     | _, _ => (st, "res=bad-request"))
+  | "alias.in.new" =>
+    (match kv.numD "max" with
+     | some m => ({ st with inRes := { maxAlias := m } }, "res=ok")
+     | none => (st, "res=bad-request"))
+  | "alias.in.reset" => ({ st with inRes := st.inRes.reset }, "res=ok")
+  | "alias.in.resolve" =>
+    (match kv.num "alias", kv.bytes "topic" with
+     | some a, some t =>
+       (match st.inRes.resolve a (t.getD []) with
+        | some (r', topic) => ({ st with inRes := r' }, s!"res=ok topic={hexOf topic}")
+        | none => (st, "res=err:InvalidInboundTopicAlias"))
+     | _, _ => (st, "res=bad-request"))
+  | _ => (st, "res=unmodelled")
+
 def dispatch (st : Session) (line : String) : Session × String :=
   let (verb, head, payload) := splitRequest line
   match verb with
@@ -45,6 +153,12 @@ def dispatch (st : Session) (line : String) : Session × String :=
   | "vli.size" => (st, cmdVliSize head)
   | "vli.dec" => (st, cmdVliDec head)
   | "table" => (st, cmdTable head)
+  | "validate.out" => (st, cmdValidateOut payload)
+  | "validate.outint" => (st, cmdValidateOutInt head payload)
+  | "validate.in" => (st, cmdValidateIn payload)
+  | "spec.valid" => (st, cmdSpecValid head payload)
+  | "alias.out.new" | "alias.out.reset" | "alias.out.resolve" | "alias.in.new" | "alias.in.reset" | "alias.in.resolve" =>
+    cmdAlias st verb head
   | "spec.decode" => (st, cmdSpecDecode head)
   | "spec.encode" => (st, cmdSpecEncode head payload)
   | "spec.canon" => (st, cmdSpecCanon head payload)
